@@ -127,6 +127,10 @@ type procLine struct {
 	// was dealt with; used ONLY to decide whether an observation is conclusive (see timeoutOracle)
 	T0 int64 `json:"t0,omitempty"`
 	T1 int64 `json:"t1,omitempty"`
+	// the store after the step, once settled: the step's message key is in the finalized cache; number
+	// of live subprocessors (both read from the real Processor)
+	Fin   *bool `json:"fin,omitempty"`
+	LiveN *int  `json:"live_n,omitempty"`
 	// evidence collected by the child (never inferred from the scenario)
 	Ev *procEvidence `json:"evidence,omitempty"`
 }
@@ -507,6 +511,30 @@ func procChild(path string) {
 		}
 		return tk, pt
 	}
+	// settle: Run releases the slot (decreaseTask) BEFORE it caches the key and forgets the subprocessor
+	// (both under subMu): once the number of live subprocessors equals `tasks` nothing is in between.
+	// Then the store is read: key finalized? how many subprocessors?
+	settle := func(u *propeller.Unit, tk, pt *uint64, patience time.Duration) (*bool, *int) {
+		if len(sc.Expect) == 0 {
+			return nil, nil
+		}
+		_, _, live := probe.read(u.Publisher)
+		deadline := time.Now().Add(patience)
+		for n := 0; live >= 0 && uint64(live) != *tk && !gaveUp; n++ {
+			if time.Now().After(deadline) && n >= 200 {
+				gaveUp = true
+				break
+			}
+			drain()
+			time.Sleep(200 * time.Microsecond)
+			*tk, *pt, live = probe.read(u.Publisher)
+		}
+		if live < 0 {
+			return nil, nil
+		}
+		fin := keyFinalized(p, u)
+		return &fin, &live
+	}
 	prev := -2
 	childStart := time.Now()
 	ms := func() int64 { return int64(time.Since(childStart)/time.Millisecond) + 1 }
@@ -523,7 +551,8 @@ func procChild(path string) {
 				emit(procLine{Step: prev, Res: "events-of-previous", Events: pending, Note: note()})
 			}
 			pending = nil
-			emit(procLine{Step: i, Res: "nil", Tasks: &tk, PTasks: &pt, T0: t0, T1: ms()})
+			fin, liveN := settle(&w.unitsOf(st.M)[0], &tk, &pt, 2*time.Second)
+			emit(procLine{Step: i, Res: "nil", Tasks: &tk, PTasks: &pt, T0: t0, T1: ms(), Fin: fin, LiveN: liveN})
 			prev = i
 			continue
 		}
@@ -543,7 +572,8 @@ func procChild(path string) {
 				patience = 20 * time.Second
 			}
 			tk, pt := await(i, u.Publisher, patience)
-			emit(procLine{Step: i, Res: res, Tasks: &tk, PTasks: &pt, T0: t0, T1: t1})
+			fin, liveN := settle(u, &tk, &pt, patience)
+			emit(procLine{Step: i, Res: res, Tasks: &tk, PTasks: &pt, T0: t0, T1: t1, Fin: fin, LiveN: liveN})
 		}
 		prev = i
 		if sc.Once {
@@ -873,6 +903,9 @@ type stepObs struct {
 	tasks, ptasks uint64
 	hasTasks      bool
 	t0, t1        int64
+	fin           bool
+	liveN         int
+	hasStore      bool
 }
 
 // slimScenario: the scenario without the (long) expectation list, for reports.
@@ -909,6 +942,9 @@ func collectEv(pr procRun, n int) (obs []stepObs, final string, notes []string, 
 			obs[l.Step].res = l.Res
 			obs[l.Step].seen = true
 			obs[l.Step].t0, obs[l.Step].t1 = l.T0, l.T1
+			if l.Fin != nil && l.LiveN != nil {
+				obs[l.Step].fin, obs[l.Step].liveN, obs[l.Step].hasStore = *l.Fin, *l.LiveN, true
+			}
 			if l.Tasks != nil && l.PTasks != nil {
 				obs[l.Step].tasks, obs[l.Step].ptasks, obs[l.Step].hasTasks = *l.Tasks, *l.PTasks, true
 			}
@@ -1355,6 +1391,8 @@ func firstPanicLines(s string) string {
 type traceStep struct {
 	ans           string // outcome: handled … | ignored | noroute | panic | expired | none
 	tasks, ptasks uint64 // the task counters after the step
+	fin           bool   // the step's key is in the finalized cache after the step
+	live          int    // live subprocessors after the step
 }
 
 // keyTerms: committee, publisher, root term, nonce of message m of the publisher, as driver tokens.
@@ -1403,9 +1441,11 @@ func procModelTrace(h *hctx, sc *procScenario, w *procWorld) []traceStep {
 		}
 		var t traceStep
 		t.ans = parts[0]
-		if _, err := fmt.Sscanf(parts[1], "%d %d", &t.tasks, &t.ptasks); err != nil {
+		fin := 0
+		if _, err := fmt.Sscanf(parts[1], "%d %d %d %d", &t.tasks, &t.ptasks, &fin, &t.live); err != nil {
 			return traceStep{}, false
 		}
+		t.fin = fin == 1
 		return t, true
 	}
 	trace := make([]traceStep, 0, len(sc.Steps))
@@ -1487,6 +1527,13 @@ func procModel(h *hctx, sc *procScenario, w *procWorld, obs []stepObs, pr procRu
 			mod = "nil"
 		case strings.HasPrefix(ans, "noroute"):
 			mod = ans
+			if strings.Contains(ans, "+") { // two reasons hold at once: either may be named
+				for _, part := range strings.Split(strings.TrimPrefix(ans, "noroute:"), "+") {
+					if impl == "noroute:"+part {
+						mod = impl
+					}
+				}
+			}
 			if impl == "noroute:other" || impl == "noroute" {
 				// the refusal's text is not one of the five known: only refused / not refused is compared
 				errOtherHits.Add(1)
@@ -1535,7 +1582,12 @@ func procModel(h *hctx, sc *procScenario, w *procWorld, obs []stepObs, pr procRu
 		// the task counters after the step (the child waited for the model's values, briefly)
 		if obs[i].hasTasks {
 			h.res.Compared(1)
-			if obs[i].tasks != trace[i].tasks || obs[i].ptasks != trace[i].ptasks {
+			storeDiffers := obs[i].hasStore && (obs[i].fin != trace[i].fin || obs[i].liveN != trace[i].live)
+			if obs[i].hasStore {
+				h.res.Compared(1)
+				h.res.Hit("proc:store-state-compared")
+			}
+			if obs[i].tasks != trace[i].tasks || obs[i].ptasks != trace[i].ptasks || storeDiffers {
 				if !sc.Patient && h.patientReruns < 4 {
 					// not reported yet: the same scenario once more with a patient child; a real difference
 					// shows again (and is reported by that run), a scheduling delay does not. At most four
@@ -1549,8 +1601,8 @@ func procModel(h *hctx, sc *procScenario, w *procWorld, obs []stepObs, pr procRu
 					return
 				}
 				h.res.Mismatch(lib.Mismatch{Sig: "processor-task-counters", Input: map[string]any{"scenario": slimScenario(sc), "step": i},
-					Model: fmt.Sprintf("tasks=%d publisherTasks=%d", trace[i].tasks, trace[i].ptasks),
-					Impl:  fmt.Sprintf("tasks=%d publisherTasks=%d", obs[i].tasks, obs[i].ptasks)})
+					Model: fmt.Sprintf("tasks=%d publisherTasks=%d keyFinalized=%v live=%d", trace[i].tasks, trace[i].ptasks, trace[i].fin, trace[i].live),
+					Impl:  fmt.Sprintf("tasks=%d publisherTasks=%d keyFinalized=%v live=%d (store read: %v)", obs[i].tasks, obs[i].ptasks, obs[i].fin, obs[i].liveN, obs[i].hasStore)})
 				return
 			}
 		}
